@@ -16,8 +16,8 @@ ENGINE = "qtworld"
 
 def tier_params(tier):
     if tier == "thorough":
-        return {"cases": 2400, "histories": 6, "events": 60, "wall_budget_s": 3300}
-    return {"cases": 96, "histories": 4, "events": 40, "wall_budget_s": 900}
+        return {"cases": 9000, "histories": 6, "events": 60, "wall_budget_s": 3300}
+    return {"cases": 256, "histories": 4, "events": 40, "wall_budget_s": 900}
 
 
 def prepare(repo):
